@@ -125,6 +125,11 @@ pub enum Move {
     /// closer existed, re-owned to the query name, with its genuine RRSIGs; authority cleared
     /// (`with_proof` = false) or left as it is
     ReplayWildcard { with_authority: bool },
+    /// the records (`sigs` = false) or the RRSIGs (`sigs` = true) of the first RRset of the answer
+    /// section (else of the authority section) that has at least two of them are served in
+    /// another order: `perm` = index into the non-identity permutations (all 5 for three records;
+    /// reverse / rotations / neighbour swaps beyond that). Nothing is signed over the order.
+    Reorder { sigs: bool, perm: u8 },
     /// answer emptied, rcode NXDOMAIN, authority := the zone's genuine SOA with its RRSIGs plus a
     /// forged, unsigned NSEC at the apex that spans the whole zone (apex -> apex)
     ForgedApexNsecWithGenuineSoa,
@@ -167,6 +172,7 @@ impl Fault {
                 Move::Denial { rtype, owner, signed } => format!("replace-by-denial({rtype},{owner:?},{signed:?})"),
                 Move::ForgedApexNsecWithGenuineSoa => "replace-by-forged-apex-nsec+genuine-soa".into(),
                 Move::ReplayWildcard { with_authority } => format!("replay-genuine-wildcard(authority-kept={with_authority})"),
+                Move::Reorder { sigs, perm } => format!("reorder-{}(perm {perm})", if *sigs { "rrsigs" } else { "rrset" }),
             },
         }
     }
@@ -219,6 +225,7 @@ impl Fault {
                 }
                 Move::ForgedApexNsecWithGenuineSoa => "forged-apex-nsec+genuine-soa".into(),
                 Move::ReplayWildcard { .. } => "replay-genuine-wildcard".into(),
+                Move::Reorder { sigs, .. } => if *sigs { "reorder-rrsigs".into() } else { "reorder-rrset".into() },
             },
         }
     }
@@ -230,6 +237,10 @@ impl Fault {
                 match mv {
                     Move::ForgeSignedBy(k) | Move::ForgeUnsupportedDs(Some(k)) => v["k"] = json!(k.tag()),
                     Move::Rcode(c) => v["rcode"] = json!(c),
+                    Move::Reorder { sigs, perm } => {
+                        v["sigs"] = json!(sigs);
+                        v["perm"] = json!(perm);
+                    }
                     Move::Denial { rtype, owner, signed } => {
                         v["rtype"] = json!(u16::from(*rtype));
                         v["owner"] = json!(format!("{owner:?}"));
@@ -273,6 +284,8 @@ impl Fault {
             Move::Rcode(v["rcode"].as_u64()? as u8)
         } else if mv == "replace-by-forged-apex-nsec+genuine-soa" {
             Move::ForgedApexNsecWithGenuineSoa
+        } else if mv.starts_with("reorder-") {
+            Move::Reorder { sigs: v["sigs"].as_bool().unwrap_or(false), perm: v["perm"].as_u64()? as u8 }
         } else if mv.starts_with("replay-genuine-wildcard") {
             Move::ReplayWildcard { with_authority: mv.contains("=true") }
         } else {
@@ -397,6 +410,44 @@ fn marker_rdata(t: RecordType, owner: &Name, hier: &Hier) -> RData {
             RData::TXT(TXT::new(vec!["evil".into()]))
         }
     }
+}
+
+/// The non-identity orders of `n` records that are enumerated: all of them up to n = 3; reverse,
+/// the two rotations and the swaps of the first / last two beyond that.
+pub fn permutations_of(n: usize) -> Vec<Vec<usize>> {
+    let id: Vec<usize> = (0..n).collect();
+    let mut out: Vec<Vec<usize>> = vec![];
+    if n <= 3 {
+        fn rec(cur: &mut Vec<usize>, n: usize, out: &mut Vec<Vec<usize>>) {
+            if cur.len() == n {
+                out.push(cur.clone());
+                return;
+            }
+            for i in 0..n {
+                if !cur.contains(&i) {
+                    cur.push(i);
+                    rec(cur, n, out);
+                    cur.pop();
+                }
+            }
+        }
+        rec(&mut vec![], n, &mut out);
+    } else {
+        let mut rev = id.clone();
+        rev.reverse();
+        let mut r1 = id.clone();
+        r1.rotate_left(1);
+        let mut r2 = id.clone();
+        r2.rotate_right(1);
+        let mut s1 = id.clone();
+        s1.swap(0, 1);
+        let mut s2 = id.clone();
+        s2.swap(n - 2, n - 1);
+        out.extend([rev, r1, r2, s1, s2]);
+    }
+    out.retain(|p| *p != id);
+    out.dedup();
+    out
 }
 
 fn is_rrsig_covering(r: &Record, owner: &Name, t: RecordType) -> bool {
@@ -528,6 +579,41 @@ impl Script {
             Move::Rcode(c) => {
                 m.metadata.response_code = ResponseCode::from(0, *c);
                 true
+            }
+            Move::Reorder { sigs, perm } => {
+                for sec in 0..2u8 {
+                    let recs = section_mut(m, sec);
+                    // first RRset (owner, type / type covered) with >= 2 members of the wanted kind
+                    let keyof = |r: &Record| -> Option<(Name, RecordType)> {
+                        match (&r.data, *sigs) {
+                            (RData::DNSSEC(DNSSECRData::RRSIG(s)), true) => Some((r.name.clone(), s.input().type_covered)),
+                            (RData::DNSSEC(DNSSECRData::RRSIG(_)), false) => None,
+                            (_, false) => Some((r.name.clone(), r.record_type())),
+                            (_, true) => None,
+                        }
+                    };
+                    let mut target = None;
+                    for r in recs.iter() {
+                        if let Some(k) = keyof(r) {
+                            if recs.iter().filter(|x| keyof(x).as_ref() == Some(&k)).count() >= 2 {
+                                target = Some(k);
+                                break;
+                            }
+                        }
+                    }
+                    let Some(k) = target else { continue };
+                    let idxs: Vec<usize> = recs.iter().enumerate().filter(|(_, x)| keyof(x).as_ref() == Some(&k)).map(|(i, _)| i).collect();
+                    let perms = permutations_of(idxs.len());
+                    let Some(p) = perms.get(*perm as usize) else { return false };
+                    if !dry {
+                        let old: Vec<Record> = idxs.iter().map(|i| recs[*i].clone()).collect();
+                        for (slot, from) in idxs.iter().zip(p.iter()) {
+                            recs[*slot] = old[*from].clone();
+                        }
+                    }
+                    return true;
+                }
+                false
             }
             Move::ReplayWildcard { with_authority } => {
                 let Some(zi) = self.hier.h.zone_for(&q.name, q.query_type) else { return false };
@@ -683,6 +769,7 @@ impl Script {
 impl Tamper for Script {
     fn apply(&self, q: &Query, honest: Vec<u8>) -> Vec<u8> {
         let k = key_of(&q.name, q.query_type);
+        let honest = self.hier.served(&k, honest);
         let mine: Vec<&Fault> = self.faults.iter().filter(|f| *f.q() == k).collect();
         let has_inj = self.injections.lock().unwrap().iter().any(|i| i.at == k);
         if mine.is_empty() && !has_inj && q.query_type != RecordType::DNSKEY {
@@ -783,6 +870,15 @@ pub fn singles_at(script_probe: &Script, q: &Query, honest: &Message) -> Vec<Fau
         for owner in OWNER_SELS {
             for signed in SIGNEDNESS {
                 moves.push(Move::Denial { rtype, owner, signed });
+            }
+        }
+    }
+    for sigs in [false, true] {
+        for perm in 0..5u8 {
+            let mv = Move::Reorder { sigs, perm };
+            let mut probe = honest.clone();
+            if script_probe.apply_move(q, &mut probe, &mv, true) {
+                out.push(Fault::Resp { q: k.clone(), mv });
             }
         }
     }
